@@ -259,7 +259,7 @@ func (p *MetadataPersister) GetHeaderChildren(ctx context.Context, name string) 
 	name = p.getSanitizedPath(ctx, name)
 
 	headers, err := models.Headers(
-		qm.Where(models.HeaderColumns.Name+" like ?", strings.TrimSuffix(name, "/")+"/%"), // Prevent double trailing slashes
+		qm.Where("substr("+models.HeaderColumns.Name+", 1, length(?)) = ?", strings.TrimSuffix(name, "/")+"/", strings.TrimSuffix(name, "/")+"/"), // Prevent double trailing slashes; compare the prefix literally as `like` treats `_` and `%` as wildcards and ignores case
 		qm.Where(models.HeaderColumns.Deleted+" != 1"),
 	).All(ctx, p.sqlite.DB)
 	if err != nil {
